@@ -427,3 +427,234 @@ Definition do_prepared (c : cfg) (s : cst) (idx t : N) (p : bytes) (wchunks cchu
 
 Definition valid_level (l : Z) : bool :=
   (websocket_minCompressionLevel <=? l)%Z && (l <=? websocket_maxCompressionLevel)%Z.
+
+(* ================= independent RFC 6455 / 7692 frame parser and validity ================= *)
+Record pframe := mkF {
+  pf_fin : bool; pf_rsv : N (* rsv1*4 + rsv2*2 + rsv3 *); pf_op : N;
+  pf_masked : bool; pf_key : bytes;
+  pf_form : N (* 0: 7-bit length, 1: 16-bit, 2: 64-bit *);
+  pf_len : N; pf_payload : bytes (* unmasked *) }.
+
+Definition parse_one (w : bytes) : option (pframe * bytes) :=
+  match w with
+  | b0 :: b1 :: r =>
+      let fin := 128 <=? b0 in
+      let rsv := (b0 / 16) mod 8 in
+      let op := b0 mod 16 in
+      let masked := 128 <=? b1 in
+      let l7 := b1 mod 128 in
+      match (if l7 =? 126 then
+               match r with a :: b :: r' => Some (1, ube2 a b, r') | _ => None end
+             else if l7 =? 127 then
+               match r with a :: b :: c :: d :: e :: f :: g :: h :: r' => Some (2, ube8 a b c d e f g h, r')
+                       | _ => None end
+             else Some (0, l7, r)) with
+      | None => None
+      | Some (form, len, r1) =>
+          match (if masked then match r1 with a :: b :: c :: d :: r' => Some ([a;b;c;d], r') | _ => None end
+                 else Some ([], r1)) with
+          | None => None
+          | Some (key, r2) =>
+              match takeN len r2 with
+              | None => None
+              | Some (pl, r3) =>
+                  Some (mkF fin rsv op masked key form len (if masked then mask_fast key 0 pl else pl), r3)
+              end
+          end
+      end
+  | _ => None
+  end.
+
+(* the whole wire must consist of complete frames; [fuel] any list at least as long as the wire *)
+Fixpoint rfc_parse_f (fuel : bytes) (w : bytes) : option (list pframe) :=
+  match w with
+  | [] => Some []
+  | _ =>
+    match fuel with
+    | [] => None
+    | _ :: f => match parse_one w with
+                | None => None
+                | Some (fr, rest) => match rfc_parse_f f rest with Some l => Some (fr :: l) | None => None end
+                end
+    end
+  end.
+Definition rfc_parse (w : bytes) : option (list pframe) := rfc_parse_f w w.
+
+Definition op_known (op : N) : bool :=
+  (op =? 0) || (op =? 1) || (op =? 2) || (op =? 8) || (op =? 9) || (op =? 10).
+Definition op_control (op : N) : bool := 8 <=? op.
+
+(* per-frame rules; [from_srv]: the sender is a server; [pmd]: permessage-deflate negotiated *)
+Definition frame_ok (from_srv pmd : bool) (f : pframe) : bool :=
+  op_known (pf_op f)
+  && (pf_rsv f mod 4 =? 0)                                  (* RSV2 = RSV3 = 0 *)
+  && (pmd || (pf_rsv f =? 0))                               (* RSV1 needs the extension *)
+  && Bool.eqb (pf_masked f) (negb from_srv)                 (* client masks, server does not *)
+  && (if pf_form f =? 0 then pf_len f <=? 125               (* minimal length form *)
+      else if pf_form f =? 1 then (125 <? pf_len f) && (pf_len f <=? 65535)
+      else (65535 <? pf_len f) && (pf_len f <? 9223372036854775808))
+  && (if op_control (pf_op f) then pf_fin f && (pf_len f <=? 125) && (pf_rsv f =? 0) else true).
+
+(* sequencing: [inmsg] = a fragmented message is open *)
+Fixpoint seq_ok (inmsg : bool) (fs : list pframe) : bool :=
+  match fs with
+  | [] => negb inmsg
+  | f :: t =>
+      if op_control (pf_op f) then seq_ok inmsg t
+      else if pf_op f =? 0 then inmsg && (pf_rsv f =? 0) && seq_ok (negb (pf_fin f)) t
+      else negb inmsg && seq_ok (negb (pf_fin f)) t
+  end.
+
+Definition rfc_valid (from_srv pmd : bool) (fs : list pframe) : bool :=
+  forallb (frame_ok from_srv pmd) fs && seq_ok false fs.
+
+(* reassembly written independently of the library's reader: data messages (type, RSV1 of the
+   first frame, concatenated payload) and control frames, each list in wire order *)
+Fixpoint reassemble (cur : option (N * bool * list bytes)) (fs : list pframe)
+  : option (list (N * bool * bytes)) :=
+  match fs with
+  | [] => match cur with None => Some [] | Some _ => None end
+  | f :: t =>
+      if op_control (pf_op f) then reassemble cur t
+      else if pf_op f =? 0 then
+        match cur with
+        | None => None
+        | Some (ty, z, acc) =>
+            if pf_fin f then
+              match reassemble None t with
+              | Some l => Some ((ty, z, concat (rev (pf_payload f :: acc))) :: l) | None => None end
+            else reassemble (Some (ty, z, pf_payload f :: acc)) t
+        end
+      else
+        match cur with
+        | Some _ => None
+        | None =>
+            let z := 4 <=? pf_rsv f in
+            if pf_fin f then
+              match reassemble None t with
+              | Some l => Some ((pf_op f, z, pf_payload f) :: l) | None => None end
+            else reassemble (Some (pf_op f, z, [pf_payload f])) t
+        end
+  end.
+Definition messages (fs : list pframe) := reassemble None fs.
+Definition controls (fs : list pframe) : list (N * bytes) :=
+  map (fun f => (pf_op f, pf_payload f)) (filter (fun f => op_control (pf_op f)) fs).
+
+(* ================= harness interface ================= *)
+Definition gen_step (s : N) : N := (s * 75 + 74) mod 65537.
+Definition gen_bytes (seed len : N) : bytes :=
+  rev (snd (N.iter len (fun sa => let s' := gen_step (fst sa) in (s', (s' mod 256) :: snd sa)) (seed mod 65537, []))).
+
+Definition sx_data (x : sx) : option bytes :=
+  match x with
+  | SB b => Some b
+  | SL [SZ seed; SZ len] => Some (gen_bytes (Z.to_N seed) (Z.to_N len))
+  | _ => None
+  end.
+Fixpoint sx_chunks (l : list sx) : list bytes :=
+  match l with [] => [] | SB b :: t => b :: sx_chunks t | _ :: t => sx_chunks t end.
+Fixpoint sx_ns (l : list sx) : list N :=
+  match l with [] => [] | SZ z :: t => Z.to_N z :: sx_ns t | _ :: t => sx_ns t end.
+
+Definition digest (w : bytes) : N := fold_left (fun h b => (h * 31 + b) mod 4294967296) w 0.
+Definition digest_limit : N := 100000.
+Definition sx_wire (w : bytes) : sx :=
+  let l := lenN w in if digest_limit <? l then SL [sN l; sN (digest w)] else SB w.
+
+Definition blen_of (is_srv : bool) (b : N) : N :=
+  if b =? 0 then (if is_srv then defaultWBuf else defaultWBuf + maxHdr) else b + maxHdr.
+
+Definition zb (z : Z) : bool := negb (z =? 0)%Z.
+
+Definition step_op (c : cfg) (pms : list (N * bytes)) (s : cst) (op : sx) : res (cst * N) :=
+  match op with
+  | SL [SZ 0; SZ t] => do_next c s (Z.to_N t) []
+  | SL [SZ 1; d; SL ch] =>
+      match sx_data d with Some p => do_write c s p (sx_chunks ch) | None => Err 98 end
+  | SL [SZ 2; d; SL ch] =>
+      match sx_data d with Some p => do_write_string c s p (sx_chunks ch) | None => Err 98 end
+  | SL [SZ 3; d; SL caps; SZ ewd; SL ch] =>
+      match sx_data d with Some p => do_read_from c s p (sx_ns caps) (zb ewd) (sx_chunks ch) | None => Err 98 end
+  | SL [SZ 4; SL ch] => do_close c s (sx_chunks ch)
+  | SL [SZ 5; SZ t; d; SL wch; SL cch] =>
+      match sx_data d with Some p => do_write_message c s (Z.to_N t) p (sx_chunks wch) (sx_chunks cch)
+                      | None => Err 98 end
+  | SL [SZ 6; SZ idx; SL wch; SL cch] =>
+      match nth_error pms (Z.to_nat idx) with
+      | Some (t, p) => do_prepared c s (Z.to_N idx) t p (sx_chunks wch) (sx_chunks cch)
+      | None => Ok (s, eNoHandle)
+      end
+  | SL [SZ 7; SB enc; SL wch; SL cch] =>
+      let* r := do_next c s opText [] in
+      let '(s1, e) := r in
+      if negb (e =? 0) then Ok (s1, e)
+      else
+        let* r1 := do_write c s1 enc (sx_chunks wch) in
+        let* r2 := do_close c (fst r1) (sx_chunks cch) in
+        Ok (fst r2, if negb (snd r1 =? 0) then snd r1 else snd r2)
+  | SL [SZ 8; SZ t; d] =>
+      match sx_data d with Some p => Ok (do_control c s (Z.to_N t) p) | None => Err 98 end
+  | SL [SZ 9; SZ l] =>
+      if valid_level l then
+        Ok (mkS (mw s) (wopen s) (hkind s) (mwclosed s) (zopen s) (tws_ s) (comp s) (ewc s) l (pcache s), eOK)
+      else Ok (s, eOther)
+  | SL [SZ 10; SZ b] =>
+      Ok (mkS (mw s) (wopen s) (hkind s) (mwclosed s) (zopen s) (tws_ s) (comp s) (zb b) (lvl s) (pcache s), eOK)
+  | _ => Err 98
+  end.
+
+Fixpoint run_ops (c : cfg) (pms : list (N * bytes)) (s : cst) (ops : list sx) (codes : list N)
+  : res (cst * list N) :=
+  match ops with
+  | [] => Ok (s, rev codes)
+  | op :: rest =>
+      let* r := step_op c pms s op in
+      run_ops c pms (fst r) rest (snd r :: codes)
+  end.
+
+Definition wire_of (s : cst) : bytes := concat (rev (out (mw s))).
+
+Fixpoint sx_pms (l : list sx) : list (N * bytes) :=
+  match l with
+  | SL [SZ t; d] :: r => match sx_data d with Some p => (Z.to_N t, p) :: sx_pms r | None => sx_pms r end
+  | _ :: r => sx_pms r
+  | [] => []
+  end.
+
+Definition init_cst (cp : bool) (ks : list bytes) : cst :=
+  cst0 (mws0 ks) cp websocket_defaultCompressionLevel.
+
+Definition run_session (is_srv : bool) (b : N) (cp : bool) (pms : list (N * bytes)) (ops : list sx)
+           (ks : list bytes) : sx :=
+  let c := mkC is_srv (blen_of is_srv b) in
+  match run_ops c pms (init_cst cp ks) ops [] with
+  | Ok (s, codes) => s_ok [SL (map sN codes); sx_wire (wire_of s)]
+  | Err e => s_err e
+  | Panic _ => s_panic
+  end.
+
+Definition sx_frame (f : pframe) : sx :=
+  SL [sbool (pf_fin f); sN (pf_rsv f); sN (pf_op f); sbool (pf_masked f); SB (pf_key f);
+      sN (pf_form f); sN (pf_len f); SB (pf_payload f)].
+
+Definition run_c13 (c : sx) : sx :=
+  match c with
+  | SL [SZ 0; SZ r; SZ b; SZ cp; SL pms; SL ops; SL ks] =>
+      run_session (zb r) (Z.to_N b) (zb cp) (sx_pms pms) ops (sx_chunks ks)
+  | SL [SZ 1; SB key; SZ p; SZ align; SB data] =>
+      let (m, p') := mask_words (Z.to_N align) key (Z.to_N p) data in s_ok [SB m; sN p']
+  | SL [SZ 2; SL chunks] =>
+      let (t, ws) := tw_run tw0 (sx_chunks chunks) in
+      s_ok [SL (map SB ws); SB (tp t); sN (tn t)]
+  | SL [SZ 3; SZ r; SZ pmd; SB w] =>
+      match rfc_parse w with
+      | None => s_err 1
+      | Some fs =>
+          s_ok [sbool (rfc_valid (zb r) (zb pmd) fs); SL (map sx_frame fs);
+                match messages fs with
+                | None => SZ (-1)
+                | Some ms => SL (map (fun m => SL [sN (fst (fst m)); sbool (snd (fst m)); SB (snd m)]) ms)
+                end]
+      end
+  | _ => bad_case
+  end.
